@@ -44,6 +44,10 @@ var solvers = []solverSpec{
 func (e *Exec) queryText(o *Obligation, withModel bool) string {
 	var b strings.Builder
 	b.WriteString(e.smt.header())
+	for _, d := range e.smt.recDefs {
+		b.WriteString(d)
+		b.WriteByte('\n')
+	}
 	b.WriteString(e.smt.declText(len(e.smt.decls)))
 	for _, a := range e.smt.axioms {
 		b.WriteString(a)
